@@ -2552,6 +2552,22 @@ Proof.
   - left. sk. destruct (s_rx sm1); auto.
 Qed.
 
+(* operation 17 (an inbound QoS 1 PUBLISH answered at once): only the wire log changes *)
+Lemma in_publish_eq s id : in_publish s id = s \/ in_publish s id = add_wire s [W_IN_PUBACK; id].
+Proof. unfold in_publish. destruct (_ && _); auto. Qed.
+Lemma in_publish_fields s id :
+  let s' := in_publish s id in
+  ver s' = ver s /\ client s' = client s /\ cap s' = cap s /\ inflight s' = inflight s /\ ids s' = ids s /\
+  waiters s' = waiters s /\ rxm s' = rxm s /\ idx s' = idx s /\ wrb s' = wrb s /\ disc s' = disc s /\
+  srem s' = srem s /\ swait s' = swait s /\ io s' = io s /\ crem s' = crem s /\ chans s' = chans s /\
+  tasks s' = tasks s.
+Proof. cbv zeta. destruct (in_publish_eq s id) as [-> | ->]; unfold add_wire; sk; repeat split. Qed.
+Lemma inv_in_publish s id : sink_inv s -> sink_inv (in_publish s id).
+Proof.
+  intros [ks I]. exists ks. destruct (in_publish_fields s id) as (_&_&_&A&B&C&D&_&_&_&_&E&F&_&G&H).
+  apply inv_core with s; auto.
+Qed.
+
 Lemma step_iom s o : iom s (sink_step s o).
 Proof.
   destruct o; cbn [sink_step]; try apply iom_refl.
@@ -2570,6 +2586,7 @@ Proof.
   - apply drop_stream_iom.
   - apply iom_eq, drop_chunk_io.
   - apply iom_eq, create_io.
+  - apply iom_eq. apply (in_publish_fields s id).
 Qed.
 
 Lemma inv_step s o : sink_inv s -> settled s -> sink_inv (sink_step s o).
@@ -2590,6 +2607,7 @@ Proof.
   - now apply inv_drop_stream.
   - now apply inv_drop_chunk.
   - now apply inv_create.
+  - now apply inv_in_publish.
 Qed.
 
 Theorem inv_sink_op s o : sink_inv s -> settled s -> sink_inv (sink_op s o) /\ settled (sink_op s o).
